@@ -481,6 +481,7 @@ func (db *SingleBucketBackend) PutObject(
 	if objectDir != "." {
 		if err := db.fs.MkdirAll(objectDir, 0777); err != nil {
 			db.metaStore.discardStagedMeta(metaPath)
+			removeNewEmptyDirs(db.fs, "", path.Dir(objectName))
 			return result, err
 		}
 	}
